@@ -50,6 +50,8 @@ func runC10(c *core.Ctx) {
 		RunViews(c, true)
 	case "vector-slices":
 		RunVectorSlices(c)
+	case "vector-slice-operations":
+		RunVectorSliceOps(c)
 	default:
 		panic("unknown scenario " + c.Scenario)
 	}
@@ -64,17 +66,18 @@ func init() {
 			{Name: "dense-views", Weight: 1},
 			{Name: "sparse-views", Weight: 1},
 			{Name: "vector-slices", Weight: 1},
+			{Name: "vector-slice-operations", Weight: 1},
 		},
 		Run:      runC10,
 		StepUnit: "operations by handles (root, Slice/T/ConstSlice views nested to depth 3) on one shared storage",
-		Rule:     "one run = one root matrix (0..5 x 0..5, drawn element type, dense or sparse) and a seeded history of <=40 steps in which the tape picks a handle (root or one of <=5 live views: Slice, ConstSlice, T, nested) and an operation (element write, ~20 mutating operations, ~25 reading/operand/iteration/print/JSON/export operations, new view, Tip). Oracle 1: index-map model of which storage element each handle element denotes, all handles read back after every step (values; derivatives handle-vs-root for real types). Oracle 2: the same operation applied to an independent deep copy must give the same result and contents. Non-trivial = at least 3 operations executed on a view. Distinct = hash of the sequence of storage-model states and handle shapes.",
+		Rule:     "one run = one root matrix (0..5 x 0..5, drawn element type, dense or sparse) and a seeded history of <=40 steps in which the tape picks a handle (root or one of <=5 live views: Slice, ConstSlice, T, nested) and an operation (element write, ~20 mutating operations, ~25 reading/operand/iteration/print/JSON/export operations, new view, Tip). Oracle 1: index-map model of which storage element each handle element denotes, all handles read back after every step (values; derivatives handle-vs-root for real types). Oracle 2: the same operation applied to an independent deep copy must give the same result and contents. The arithmetic steps include the concrete-type variants (MADDM, MDOTM, OUTER, EQUALS, ...: methods that take operands of the receiver's concrete type) and division by operands without zeros. vector-slices: ConstSlice(i,j).ConstAt(k) is ConstAt(i+k) for dense, sparse and read-only sparse vectors and the gradient vector of a scalar, nested, with write-through for dense vectors. vector-slice-operations: a chain of nested Slice views of a dense vector (9 element types, real types with derivatives) and 2..10 operations with a slice as receiver or operand (interface and concrete-type arithmetic, products, Set/Reset/Map/Swap/Permute/Sort/ReverseOrder, AppendScalar/AppendVector, iteration, printing, JSON, conversions); oracle: same result and contents as on a deep copy, and afterwards the root holds the deep copy's contents inside the slice and is unchanged outside of it. Non-trivial = at least 3 operations executed on a view (vector slices: 2). Distinct = hash of the sequence of storage-model states and handle shapes.",
 		Assumptions: []string{
 			"operands never share storage with the receiver (aliasing is C08)",
 			"Tip() is only applied to the root after all views were dropped (the property specifies it for a matrix that owns its whole storage)",
 			"AsVector order is unspecified by the library: compared as a multiset",
 			"a defect of the plain container that shows identically on the deep copy is not reported here (it is not a view defect)",
 		},
-		RealCode:     []string{"autodiff Dense*Matrix / Sparse*Matrix (9 element types): Slice, ConstSlice, T, Tip, iterators, arithmetic, Row/Col/Diag, AsVector, String/Table, MarshalJSON/UnmarshalJSON, Export/Import"},
+		RealCode:     []string{"autodiff Dense*Matrix / Sparse*Matrix (9 element types): Slice, ConstSlice, T, Tip, iterators, arithmetic (interface methods and concrete-type variants), Row/Col/Diag, AsVector, String/Table, MarshalJSON/UnmarshalJSON, Export/Import; Dense*Vector Slice / ConstSlice with every vector operation; ConstSlice of sparse, read-only sparse and gradient vectors"},
 		Stubs:        []string{"none (reference: index map over a flat []float64 + deep copy built through At().Set())"},
 		Caps:         map[string]int{"ops_per_run": 40, "rows": 5, "cols": 5, "view_depth": 3, "live_handles": 6},
 		QuickRuns:    250000,
@@ -96,7 +99,7 @@ func init() {
 		},
 		Run:      runC11,
 		StepUnit: "operations by handles (container, live iterators, slices) on one sparse container",
-		Rule:     "sparse-vector / sparse-matrix: one run = one seeded history of <=50 public operations on one sparse container of a drawn element type (9 types) and dimension 0..12, interleaved by the tape with <=3 partially consumed iterators and read-only slice handles; operands are fresh dense or sparse objects. After every step all in-range reads and Dim are compared with a dense []float64 model of the same history; full iteration sweeps are themselves scheduled operations. sparse-const-vector: a read-only sparse vector built from positions handed over in a drawn order (incl. explicit zeros) and <=30 interleaved read handles (point reads before and after the lazy index map exists, iteration from every lower bound, nested read-only slices, joint iteration with a dense partner). Non-trivial = at least 4 mutating operations on a container of dimension >=2 (read-only: dimension >= 2 and at least one entry). Distinct = distinct hash of the sequence of model states and iterator positions.",
+		Rule:     "sparse-vector / sparse-matrix: one run = one seeded history of <=50 public operations on one sparse container of a drawn element type (9 types) and dimension 0..12, interleaved by the tape with <=3 partially consumed iterators and read-only slice handles; operands are fresh dense or sparse objects; arithmetic steps use the interface methods or (one in three) the concrete-type variants VADDV ... VDIVS, and include division by operands without zeros. After every step all in-range reads and Dim are compared with a dense []float64 model of the same history; full iteration sweeps are themselves scheduled operations. sparse-const-vector: a read-only sparse vector built from positions handed over in a drawn order (incl. explicit zeros) and <=30 interleaved read handles (point reads before and after the lazy index map exists, iteration from every lower bound, nested read-only slices, joint iteration with a dense partner). Non-trivial = at least 4 mutating operations on a container of dimension >=2 (read-only: dimension >= 2 and at least one entry). Distinct = distinct hash of the sequence of model states and iterator positions.",
 		Assumptions: []string{
 			"values are small integers / halves so that every element type computes exactly; integer overflow is modelled as wrap-around",
 			"receiver and operands never share storage (aliasing is C08, not claimed)",
@@ -128,7 +131,7 @@ func init() {
 		},
 		Run:      runC12,
 		StepUnit: "mutating operations on either side of a copy / library calls with snapshotted operands",
-		Rule:     "clones: a source container (dense/sparse vector or matrix, any of 9 element types, possibly a nested Slice/T view, derivatives attached for real types, after a short random history) is copied by a drawn copy operation (Clone*, CloneConst*, CloneMagic*, AsDense*/AsSparse* to a drawn element type, clone of a slice); the copy must equal the source at creation, then the tape interleaves <=16 mutations of either side and the side that did not act must equal its own snapshot (values, derivatives, shape). operands: 2..8 arithmetic/iteration/print calls with fresh receivers; the operands must be unchanged. algorithm-inputs: 21 algorithm entry points, 1..3 calls per session with fresh or re-used nil-buffer InSitu objects under the step clock; every caller object of every call of the session must be unchanged. iterator-clones: up to 4 cursors (an iterator and clones of partially consumed iterators, 7 iterator kinds incl. joint iterators) advanced in a drawn interleaving; each must keep yielding the remaining part of the reference sequence. scalar-clones: scalar of any of 9 types (real ones with first/second derivatives) vs its copy under interleaved mutation. distribution-parameters: 12 scalar families; constructor arguments, GetParameters result, SetParameters argument and CloneScalarPdf are independent of the distribution. Non-trivial = at least 2 mutations (clones) / always (others). Distinct = hash of the sequence of observed states / of (call kind, storage kinds, element type, options).",
+		Rule:     "clones: a source container (dense/sparse vector or matrix, any of 9 element types, possibly a nested Slice/T view, derivatives attached for real types, after a short random history) is copied by a drawn copy operation (Clone*, CloneConst*, CloneMagic*, AsDense*/AsSparse* to a drawn element type, clone of a slice); the copy must equal the source at creation, then the tape interleaves <=16 mutations of either side and the side that did not act must equal its own snapshot (values, derivatives, shape). operands: 2..8 arithmetic/iteration/print calls (21 kinds, interface methods or the concrete-type variants VADDV / MDOTM / EQUALS ...) with fresh receivers; the operands must be unchanged. algorithm-inputs: 21 algorithm entry points, 1..3 calls per session with fresh or re-used nil-buffer InSitu objects under the step clock; every caller object of every call of the session must be unchanged. iterator-clones: up to 4 cursors (an iterator and clones of partially consumed iterators, 7 iterator kinds incl. joint iterators) advanced in a drawn interleaving; each must keep yielding the remaining part of the reference sequence. scalar-clones: scalar of any of 9 types (real ones with first/second derivatives) vs its copy under interleaved mutation. distribution-parameters: 12 scalar families; constructor arguments, GetParameters result, SetParameters argument and CloneScalarPdf are independent of the distribution. Non-trivial = at least 2 mutations (clones) / always (others). Distinct = hash of the sequence of observed states / of (call kind, storage kinds, element type, options).",
 		Assumptions: []string{
 			"values are small integers so that As-conversions between element types are exact",
 			"derivatives are compared only where the target type can carry them",
